@@ -3,10 +3,11 @@ from ..core import Script, Rng
 from ..stage import LineStage, replay_line
 from .common import *
 
-ARTEFACTS = ["G1-consts", "G2-rs-portable"]
+ARTEFACTS = ["G1-consts", "G2-rs-portable", "G8-chunkstate"]
+EXTRA_PROPS = [("B3.Props.C02T", "B3/Props/C02T.lean")]   # theorems about the code translated from the sources
 RULE = ("prefix . reset . suffix histories: prefixes contain partial chunks, deep stacks (2^k+1 chunks), hazmat offsets, finalize "
         "calls; the reset is Hasher::reset or, through the trait impls, Reset::reset / finalize_fixed_reset / finalize_xof_reset; after reset the same suffix is run on the reset hasher and on a fresh one of the same mode and every output compared "
-        "(and both with the model/spec); clone-then-diverge histories; non-trivial = prefix absorbed input or set an offset; "
+        "(and both with the model/spec); clone-then-diverge histories incl. Clone::clone_from into a hasher that has its own history (deep stack); non-trivial = prefix absorbed input or set an offset; "
         "distinct = distinct script")
 ASSUMPTIONS = []
 NOT_PROVED = []
@@ -60,7 +61,9 @@ def clone_script(rng, plat):
            "H clone a b"]
     for _ in range(rng.randrange(2, 8)):
         r = rng.choice("ab")
-        ops.append(rng.choice([f"H upd {r} {pat(size_of_class(rng.choice(SIZE_CLASSES), rng, 30000), rng)}", f"H fin {r}", f"H reset {r}", f"H cnt {r}"]))
+        o = "b" if r == "a" else "a"
+        ops.append(rng.choice([f"H upd {r} {pat(size_of_class(rng.choice(SIZE_CLASSES), rng, 30000), rng)}", f"H fin {r}", f"H reset {r}", f"H cnt {r}",
+                               f"H upd {r} {pat(rng.choice([2049, 5000, 70000]), rng)}", f"H clonefrom {o} {r}"]))
     ops += ["H cnt a", "H fin a", "H cnt b", "H fin b"]
     return Script(ops, tags=(plat, "clone"))
 
